@@ -399,6 +399,26 @@ pub fn run(opts: &Opts) -> i32 {
     for (tag, src, want) in that_probes {
         probes.push((tag.to_string(), src, want));
     }
+    // (d) a binder named like a type that its own annotation mentions: the annotation is resolved
+    // outside the binder, so the program must behave as with a fresh binder name
+    let ann_forms: [(&str, &str); 7] = [
+        ("def-parameter", "def ! pick (NAME : Num) : Ret Int64 = ret NAME that\n  do r <- ! pick (5 : Int64);\n  ! (process/exit) r"),
+        ("let-in", "let (NAME : Num) = (5 : Int64) in\n  ! (process/exit) NAME"),
+        ("do", "do (NAME : Num) <- ret (5 : Int64);\n  ! (process/exit) NAME"),
+        ("fn-parameter", "(fn (NAME : Num) => ! (process/exit) NAME) (5 : Int64)"),
+        ("pair-pattern", "let ((NAME, zother) : Num * Num) = ((5 : Int64), (9 : Int64)) in\n  ! (process/exit) NAME"),
+        ("nested-annotation", "let ((NAME : Num), (zother : Int64)) = ((5 : Int64), (9 : Int64)) in\n  ! (process/exit) NAME"),
+        ("thunk-parameter", "let f : Thk (Num -> OS) = { fn (NAME : Num) => ! (process/exit) NAME } in\n  ! f (5 : Int64)"),
+    ];
+    let mut ann_pairs: Vec<(String, usize, usize)> = Vec::new();
+    for (form, body) in ann_forms {
+        let mk = |name: &str| format!("{pre}begin\n  let Num = Int64 that\n  {}\nend\n", body.replace("NAME", name));
+        let a = probes.len();
+        probes.push((format!("annotated-binder-fresh form={form}"), mk("zn"), "exit:5"));
+        probes.push((format!("annotated-binder-shadowing form={form}"), mk("Num"), "exit:5"));
+        ann_pairs.push((form.to_string(), a, a + 1));
+    }
+    let _ = &ann_pairs;
     let mut session = CompilerSession::default();
     for (k, (tag, source, want)) in probes.iter().enumerate() {
         let path = probes_dir.join(format!("probe{k}.zy"));
